@@ -131,6 +131,17 @@ def bgpsecCommand (s : BgpsecDefs) (holdsAsn : Nat → Bool) (now : Nat) (u : Bg
   | .ok (_, evs) => applyBgpsecEvs s evs
   | .error _ => s
 
+/-- One router-key update request: the update, the AS numbers held and the clock reading at
+that moment. -/
+structure BgpsecReq where
+  holdsAsn : Nat → Bool
+  now      : Nat
+  upd      : BgpsecUpdates
+
+/-- The definitions after a history of update requests. -/
+def runBgpsec (s0 : BgpsecDefs) (h : List BgpsecReq) : BgpsecDefs :=
+  h.foldl (fun s q => bgpsecCommand s q.holdsAsn q.now q.upd) s0
+
 /-! ## Children -/
 
 /-- `ChildDetails` as far as the checks look at it. -/
